@@ -231,7 +231,14 @@ def run_case(case):
                 g.new_rule('S', srhs)
                 g.add_rule(rule)
                 g.add_rule(build_rule(sh, ntmask))
-                for variant, gg in (('hrg', g), ('hrg-copy', g.copy())):
+                # a third presentation: terminals that already carry the names a fresh nonterminal would get first
+                gt = g.copy()
+                trhs = fggs.Graph()
+                for base in (rule.lhs.name, 'S'):
+                    for nm_ in [n_ for n_ in ('%s_%d' % (base, k) for k in range(1, 8)) if not gt.has_edge_label_name(n_)][:2]:
+                        trhs.add_edge(fggs.Edge(fggs.EdgeLabel(nm_, [], is_terminal=True), []))
+                gt.new_rule('S', trhs)
+                for variant, gg in (('hrg', g), ('hrg-copy', g.copy()), ('hrg-suffixed-names-taken', gt)):
                     originals = gg.all_rules()
                     ol = set(gg.edge_labels())
                     with Spy() as spy:
